@@ -74,6 +74,7 @@ class Ctx(object):
         self.extra = {}
         self.exhaustive = False
         self.floors = []
+        self.errors = []
         self.t0 = time.time()
         self.evidence_dir = evidence_dir or os.path.join(VERIF, "evidence")
         self.quiet = quiet
@@ -113,6 +114,18 @@ class Ctx(object):
                     what, got, minimum
                 )
             )
+
+    def section(self, fn, *args, **kwargs):
+        """
+        run one independent sub-rule; if its recogniser no longer understands the code (AnalysisError) the
+        other sub-rules still run. Violations found elsewhere are reported (exit 1); with no violation the
+        run ends as an analysis error (exit 2) — an unrecognised shape is never a silent pass.
+        """
+        try:
+            return fn(*args, **kwargs)
+        except AnalysisError as e:
+            self.errors.append("{}: {}".format(getattr(fn, "__name__", "section"), e))
+            return None
 
     def need(self, cond, msg):
         """shape requirement of a recogniser"""
@@ -186,6 +199,7 @@ class Ctx(object):
             "samples": self.samples
             or [o.as_dict() for o in self.obligations[:: max(1, n // 12)]][:14],
             "notes": self.notes,
+            "analysis_errors": self.errors,
             "exhaustive": bool(self.exhaustive),
             "evaluations": n,
             "distinct_nontrivial": len({o.key() for o in self.obligations}),
@@ -225,7 +239,11 @@ class Ctx(object):
                 print("note: " + t)
         for line in out:
             print(line)
-        return 1 if unlisted else 0
+        for e in self.errors:
+            print("ANALYSIS-ERROR property={} {}".format(self.prop, e))
+        if unlisted:
+            return 1
+        return 2 if self.errors else 0
 
 
 def _where(where):
